@@ -74,6 +74,10 @@ def check(beh):
     # Lanczos-type answers carry the documented 1e-6 tridiagonal jitter (relative to the smallest Ritz value): 1e-6 kappa
     tol_krylov = max(tol_exact, 1e-4 * max(1.0, kappa / 100) if dtype == torch.float64 else 2e-2)
     tol = tol_exact if d["exact"] else tol_krylov
+    if d["exact"] and d["relation"] in ("LLt", "RtR", "RRt"):
+        # reconstruction by a direct factorization is backward stable: ||F F^T - A|| ~ eps ||A|| whatever the conditioning (a singular PSD
+        # matrix is as easy as a well-conditioned one); only inverse-type relations lose accuracy with kappa
+        tol = 500 * eps * min(kappa, 100.0) + (2e-5 if dtype == torch.float32 else 1e-9)
     fails = []
     thr = d["thr"]
     if not d["exact"] and not d.get("judge_degenerate"):
